@@ -177,9 +177,52 @@ def roundtrip(chk):
            replay=None if bad is None else {"confirmed": True, "input": "hy.as_model of a structure that contains itself", "observed": str(bad)[:300]})
 
 
+def history_independence(chk):
+    """as_model is a function of its argument: what it returns for v does not depend on which values were promoted before.  Scalars that
+    compare equal across types (True == 1 == 1.0 == 1+0j, False == 0 == 0.0 == -0.0 == 0j) are the values an equality-keyed shortcut
+    would confuse; each is promoted after each other one, alone and inside containers, and the result is compared node-wise (model
+    class and printed form, which tells -0.0 from 0.0) with the model built directly from the registered class; the evaluated value has
+    the type and printed form of the original."""
+    import itertools
+    scal = [True, 1, 1.0, 1 + 0j, False, 0, 0.0, -0.0, 0j, complex(-0.0, 0.0), 2, 2.0, None, "1", b"1", float("inf"), 1e300, 10 ** 30]
+    cls = {bool: hm.Symbol, int: hm.Integer, float: hm.Float, complex: hm.Complex, type(None): hm.Symbol, str: hm.String, bytes: hm.Bytes}
+
+    def direct(v):
+        return cls[type(v)](str(v)) if type(v) in (bool, type(None)) else cls[type(v)](v)
+
+    def same(m, v):
+        d = direct(v)
+        return type(m) is type(d) and repr(m) == repr(d)
+    bad = None
+    n = 0
+    for u, v in itertools.permutations(scal, 2):
+        for wrap in (lambda x: x, lambda x: [x], lambda x: {"k": (x,)}):
+            hy.as_model(wrap(u))
+            m = hy.as_model(wrap(v))
+            leaf = m
+            while isinstance(leaf, hm.Sequence):
+                leaf = leaf[-1]
+            n += 1
+            ok = same(leaf, v)
+            if ok:
+                back = hy.eval(m, module=types.ModuleType("hv_c29h"))
+                while isinstance(back, (list, tuple, dict)):
+                    back = list(back.values())[-1] if isinstance(back, dict) else back[-1]
+                ok = type(back) is type(v) and repr(back) == repr(v)
+            if not ok and bad is None:
+                bad = (u, v, repr(m))
+    chk.case(("history", n))
+    chk.ob("history/what as_model returns for a value does not depend on the values promoted before it (equal scalars of different types, "
+           "zeros of either sign; node-wise and after evaluation)", bad is None, "rtc", "bounded",
+           detail=f"{n} ordered pairs x wrappings" if bad is None else f"after as_model({bad[0]!r}), as_model({bad[1]!r}) gives {bad[2]}",
+           replay=None if bad is None else {"confirmed": True, "input": f"hy.as_model({bad[0]!r}); hy.as_model({bad[1]!r})", "observed": bad[2],
+                                            "expected": repr(direct(bad[1]))})
+
+
 def run(chk):
     targets.c29(chk)
     structure(chk)
+    history_independence(chk)
     roundtrip(chk)
     from hv.pyvc import engine
     chk.extra["smt"] = dict(engine.STATS)
